@@ -279,6 +279,11 @@ def exact(rhol=0.0, rhor=1.0, pl=0.0, pr=1.0,
         printf(b"%s", b"Divergence in Newton-Raphson Iteration")
         return 1
 
+    # next to vacuum the star pressure underflows: an iterate that is not a
+    # positive normal number "converges" (p == pold) without being a solution
+    if p != p or p < 2.2250738585072014e-308:
+        return 1
+
     # compute the velocity in the star region 'um'
     um = 0.5 * (ul + ur + fr[0] - fl[0])
     result[0] = p
